@@ -25,6 +25,10 @@ BENIGN_IMPORTS = frozenset(("sympy", "mpmath", "_pylong", "decimal", "_decimal",
                             "tokenize", "token", "traceback", "unicodedata", "encodings", "gmpy2", "flint", "re", "keyword", "ast", "_ast"))
 
 
+NAMED_IMPORTS = frozenset(("os", "posix", "subprocess", "socket", "ctypes", "shutil", "pty", "sys", "importlib", "builtins", "pickle", "marshal", "urllib", "http",
+                           "tempfile", "glob", "pathlib", "io", "code", "codeop", "runpy", "pdb", "multiprocessing", "threading", "signal", "resource", "numpy", "unyt"))
+
+
 class Hang(BaseException):
     """raised by the interval timer inside a guarded call (BaseException: must not be swallowed by `except Exception`)"""
 
@@ -91,7 +95,7 @@ def _classify(event, args):
         top = str(args[0]).split(".")[0] if args else "?"
         if top in BENIGN_IMPORTS:
             return ("import", "import:" + top)
-        return ("bad", "import:" + top)
+        return ("bad", "import:" + (top if top in NAMED_IMPORTS else "other-module"))     # label stays structural: never text taken from the input
     if event == "open":
         path, mode = (args + (None, None))[:2]
         if path in ("<string>", b"<string>"):
